@@ -313,9 +313,47 @@ func c06Counter(p *Prog, r *Report, fn *Func, cond ast.Expr, counter ast.Expr) {
 	info := fn.Info()
 	id, ok := ast.Unparen(counter).(*ast.Ident)
 	key := "counter of " + exprStr(cond)
+	// the list being filled: append targets in this function of element type lang.Candidate
+	var appends []*ast.AssignStmt
+	listPaths := map[string]bool{}
+	defer func() {}()
+	collectAppends := func() {
+		ast.Inspect(fn.Body, func(n ast.Node) bool {
+			if lit, ok := n.(*ast.FuncLit); ok && lit != fn.Lit {
+				return false
+			}
+			as, ok := n.(*ast.AssignStmt)
+			if !ok || len(as.Lhs) != 1 || len(as.Rhs) != 1 {
+				return true
+			}
+			call, ok := ast.Unparen(as.Rhs[0]).(*ast.CallExpr)
+			if !ok || !isBuiltinCall(info, call, "append") || len(call.Args) < 2 {
+				return true
+			}
+			lt := info.TypeOf(as.Lhs[0])
+			if lt == nil {
+				return true
+			}
+			if et := elemType(lt); et == nil || !typeIs(et, "hcl-lang/lang", "Candidate") {
+				return true
+			}
+			if fn.Canon(as.Lhs[0]) == "" || fn.Canon(as.Lhs[0]) != fn.Canon(call.Args[0]) {
+				return true
+			}
+			listPaths[fn.Canon(as.Lhs[0])] = true
+			return true
+		})
+	}
 	if !ok {
-		// len(list) compared directly is fine
+		// len(list) compared directly is fine — if it is the list that is being filled
 		if call, isCall := ast.Unparen(counter).(*ast.CallExpr); isCall && isLenCall(info, call) {
+			collectAppends()
+			lp := fn.Canon(call.Args[0])
+			if len(listPaths) > 0 && !listPaths[lp] {
+				r.Add("C06.counter", fn.Name, key, p.Pos(cond), Violated,
+					"the limit test reads the length of "+exprStr(call.Args[0])+", which is not the candidate list this function fills: candidates already in the list are not counted", true)
+				return
+			}
 			r.Add("C06.counter", fn.Name, key, p.Pos(cond), OK, "the limit test reads len(list) directly", false)
 			return
 		}
@@ -323,9 +361,7 @@ func c06Counter(p *Prog, r *Report, fn *Func, cond ast.Expr, counter ast.Expr) {
 		return
 	}
 	co := info.ObjectOf(id)
-	// the list being filled: append targets in this function of element type lang.Candidate
-	var appends []*ast.AssignStmt
-	listPaths := map[string]bool{}
+	listPaths = map[string]bool{}
 	ast.Inspect(fn.Body, func(n ast.Node) bool {
 		if lit, ok := n.(*ast.FuncLit); ok && lit != fn.Lit {
 			return false
